@@ -199,6 +199,7 @@ fn objectives() -> Vec<Option<FnRep>> {
         Some(FnRep::Lin { terms: vec![], c: 0.0 }),
         Some(FnRep::Poly { terms: vec![(vec![2], 1.0), (vec![1, 1, 1, 2], 2.0)] }),
         Some(FnRep::Poly { terms: vec![(vec![], 2.0), (vec![1], 1.0), (vec![], -0.5)] }),
+        Some(FnRep::Lin { terms: (0..40usize).map(|i| (1 + (i % 2) as u64, [1.0, -0.5, 2.0][i % 3])).collect(), c: 0.5 }),
     ]
 }
 
@@ -231,7 +232,7 @@ pub fn run(ctx: &Ctx) -> Finish {
             }).collect());
         }
     }
-    let removed_ids = [2u64, 77];
+    let removed_ids = [77u64, 2];
     let mut removed_lists: Vec<Vec<RemRep>> = vec![];
     for k in 0..=2usize {
         for s in sequences(cfs.len(), k) {
